@@ -268,8 +268,14 @@ def gen_model_spec(rng: random.Random, *, allow_conv: bool = True,
         a = rng.randrange(0, len(layers) - 1)
         b = rng.randint(a + 1, min(len(layers), a + 3))
         layers[a:b] = [{'t': 'seq', 'layers': layers[a:b]}]
+    # module names: sometimes from a pool in which names are prefixes and
+    # suffixes of each other, so that code matching layers by name has to be
+    # exact (a state dict is keyed by these names)
+    pool = ['m1', 'm11', 'xm1', 'm', '1', 'm1x', 'am', 'm111', 'a', 'ma',
+            '11', 'x', 'mm', 'm1m1']
+    tricky = zoo and rng.random() < 0.3 and len(layers) <= len(pool)
     for i, s in enumerate(layers):
-        s['name'] = f'm{i}'
+        s['name'] = pool[i] if tricky else f'm{i}'
     spec: dict[str, Any] = {
         'dtype': dtype, 'layers': layers, 'input': inp, 'out': feat,
         'min_batch': 2 if has_bn else 1, 'max_batch': rng.choice([3, 6, 9]),
